@@ -203,6 +203,10 @@ def r17_4(ctx):
                 src = norm(s.iter, 800)
             if src and any(k in src for k in ("db.query", "db.fetchone", "list_folders", "SELECT name")):
                 indep = True
+            # the set is also filled from an unfiltered query:  async for (name,) in db.query("SELECT name FROM mailboxes ..."): nm.add(..)
+            if isinstance(s, (ast.AsyncFor, ast.For)) and "db.query(" in norm(s.iter, 400) and " regexp " not in norm(s.iter, 400).lower():
+                if any(isinstance(c, ast.Call) and call_name(c) in ("add", "update") and isinstance(call_recv(c), ast.Name) and call_recv(c).id == nm for b in s.body for c in ast.walk(b)):
+                    indep = True
     if only_filtered and not indep:
         ctx.bad(
             "R17.4", fi.module, fi.qual, norm(defs[0], 100) if defs else var,
